@@ -27,14 +27,14 @@ OneFile == <<[dir |-> FALSE, size |-> 1, comp |-> FALSE]>>
 ResetInternals ==
     /\ chan' = [r \in Roles |-> <<>>] /\ dead' = [r \in Roles |-> FALSE]
     /\ pc' = [r \in Roles |-> "run"] /\ fi' = [r \in Roles |-> 0]
-    /\ rem' = 0 /\ outst' = <<>> /\ sdig' = Empty /\ got' = Empty /\ ackq' = <<>> /\ fin' = FALSE /\ rsize' = 0
+    /\ rem' = 0 /\ outst' = <<>> /\ sdig' = Empty /\ got' = Empty /\ ackq' = <<>> /\ fin' = FALSE /\ rsize' = 0 /\ nann' = 0
     /\ rdig' = Empty /\ fileOK' = [r \in Roles |-> {}] /\ stopped' = [r \in Roles |-> "no"]
 
 TInit ==
     /\ cf = [files |-> OneFile, proto |-> 4, upload |-> TRUE, confirm |-> TRUE]
     /\ chan = [r \in Roles |-> <<>>] /\ dead = [r \in Roles |-> FALSE]
     /\ pc = [r \in Roles |-> "run"] /\ fi = [r \in Roles |-> 0]
-    /\ rem = 0 /\ outst = <<>> /\ sdig = Empty /\ got = Empty /\ ackq = <<>> /\ fin = FALSE /\ rsize = 0
+    /\ rem = 0 /\ outst = <<>> /\ sdig = Empty /\ got = Empty /\ ackq = <<>> /\ fin = FALSE /\ rsize = 0 /\ nann = 0
     /\ rdig = Empty /\ fileOK = [r \in Roles |-> {}] /\ stopped = [r \in Roles |-> "no"]
     /\ dst = [f \in 1..1 |-> Empty] /\ made = {} /\ result = [r \in Roles |-> "run"]
     /\ faults = 0 /\ told = [r \in Roles |-> FALSE]
@@ -57,24 +57,33 @@ TSkip ==
     /\ obs.phase = "running"
     /\ UNCHANGED <<vars, obs>>
 
+ObsRcv == IF cf.upload THEN "V" ELSE "C"
+ObsSnd == IF cf.upload THEN "C" ELSE "V"
+
 TRet ==
     /\ IsEvent("ret") /\ obs.phase = "running" /\ result[Ev.role] = "run"
     /\ result' = [result EXCEPT ![Ev.role] = IF Ev.hung THEN "run" ELSE Ev.res]
     /\ told' = [told EXCEPT ![Ev.role] = Ev.told]
     /\ pc' = [pc EXCEPT ![Ev.role] = IF Ev.hung THEN "run" ELSE "done"]
-    /\ fileOK' = [fileOK EXCEPT ![Ev.role] = IF Ev.res = "ok" /\ ~Ev.hung THEN {1} ELSE {}]
+    /\ fileOK' = [fileOK EXCEPT ![Ev.role] = IF Ev.res = "ok" /\ ~Ev.hung /\ (Ev.role = ObsRcv => Ev.claims > 0) THEN {1} ELSE {}]
     /\ obs' = [obs EXCEPT !.hung = IF Ev.hung THEN @ \cup {Ev.role} ELSE @, !.ms[Ev.role] = Ev.ms,
                           !.since[Ev.role] = Ev.since]
+    \* the receiver's claim: the entries it lists as saved / received (the one abstract file stands for them)
+    /\ nann' = IF Ev.role = ObsRcv THEN (IF Ev.claims > 0 THEN 1 ELSE 0) ELSE nann
     /\ UNCHANGED <<cf, chan, dead, fi, rem, outst, sdig, got, ackq, fin, rsize, dst, made, rdig, stopped, faults>>
 
 TFs ==
     /\ IsEvent("fs") /\ obs.phase = "running"
     /\ made' = IF Ev.n > 0 /\ Ev.nsame > 0 THEN {1} ELSE {}
-    /\ dst' = [f \in 1..1 |-> IF Ev.allsame THEN Src(1) ELSE Cont(0, 1)]
+    \* the sender's success is about every entry it was given, the receiver's about the entries it lists
+    /\ dst' = [f \in 1..1 |-> IF /\ (result[ObsSnd] = "ok" => Ev.allsame)
+                                 /\ (result[ObsRcv] = "ok" /\ nann > 0 => Ev.claimsame)
+                                 /\ (~AnyOK => Ev.allsame)
+                              THEN Src(1) ELSE Cont(0, 1)]
     /\ obs' = [obs EXCEPT !.phase = "judged", !.extra = Ev.extra, !.touched = Ev.touched, !.shown = Ev.shown,
                           !.n = Ev.n, !.nsame = Ev.nsame, !.npresent = Ev.npresent, !.keptok = Ev.keptok,
                           !.vmgrow = Ev.vmgrow, !.pdata = Ev.pdata, !.pkeep = Ev.pkeep, !.dataafter = Ev.dataafter, !.pausems = Ev.pausems]
-    /\ UNCHANGED <<cf, chan, dead, pc, fi, rem, outst, sdig, got, ackq, fin, rsize, rdig, result, fileOK, stopped,
+    /\ UNCHANGED <<cf, chan, dead, pc, fi, rem, outst, sdig, got, ackq, fin, rsize, nann, rdig, result, fileOK, stopped,
                    faults, told>>
 
 TLeft ==
@@ -98,6 +107,8 @@ Plain == obs.stop = "none" /\ ~obs.pause /\ ~obs.silence /\ faults = 0
 (* Transfer's own invariants on the observed final state *)
 ObsFidelity == Judged => Fidelity
 ObsNoSilentCorruption == Judged => NoSilentCorruption
+(* without faults a receiver that succeeds lists something (and ObsShown: what it lists is what is there) *)
+ObsClaimsAll == (Judged /\ Plain) => ClaimsAll
 (* C01 second half: a fault-free run with a cooperative peer completes on both sides, in time *)
 ObsCleanRunSucceeds == (Judged /\ Plain) => (obs.hung = {} /\ \A r \in Roles : result[r] = "ok")
 (* the names shown are the names written, nothing else appears, nothing pre-existing changes *)
@@ -109,7 +120,6 @@ ObsNoHang == Judged => obs.hung = {}
 StopBoundMs == obs.timeout * 1000 + 1500 + 8000
 Stopped == obs.stop # "none"
 ObsStopPrompt == (Judged /\ Stopped) => (obs.hung = {} /\ \A r \in Roles : obs.since[r] <= StopBoundMs)
-ObsRcv == IF cf.upload THEN "V" ELSE "C"
 ObsDeleteExact == (Judged /\ Stopped /\ obs.stopdel /\ result[ObsRcv] # "ok" /\ result["C"] # "ok")
                       => (obs.npresent = 0 /\ obs.touched = 0)
 ObsKeepIntact == (Judged /\ Stopped /\ ~obs.stopdel) => (obs.keptok /\ obs.touched = 0)
